@@ -465,7 +465,7 @@ func c18ClassifyDump(dump string, mine string) []string {
 		innerHandle := strings.Contains(inner, "cache.(*BugCache).") || strings.Contains(inner, "cache.(*CachedEntityBase[") || strings.Contains(inner, "cache.(*withSnapshot[")
 		switch {
 		case strings.Contains(inner, ").AllIds") && strings.Contains(g, "RepoCacheBug).Query"):
-			tags["stuck:query-allids-rlock"] = true
+			tags["stuck:query-allids-waits-rlock"] = true
 		case innerHandle && strings.Contains(g, ").evictIfNeeded"):
 			tags["stuck:evict-waits-entity-lock"] = true
 		case strings.Contains(inner, ").evictIfNeeded"):
@@ -958,6 +958,26 @@ func c18Render(in c18Input, raw json.RawMessage, s *c18Run, obs c18Obs, flushCla
 	}
 	if !obs.Coherent {
 		tags = append(tags, "incoherent")
+		// the only difference: bugs whose NewBug call failed with "entity missing from cache" (stored, but
+		// evicted before their excerpt was written) are unknown to the live cache
+		failedNew := map[string]bool{}
+		for _, r := range obs.Calls {
+			if in.Threads[r.T][r.K].K == "new" && r.EditE == c18Missing && len(r.Bug) >= 7 {
+				failedNew[r.Bug[:7]] = true
+			}
+		}
+		only := len(failedNew) > 0
+		for _, d := range obs.Diff {
+			switch {
+			case strings.HasPrefix(d, "missing from live cache: ") && failedNew[strings.TrimPrefix(d, "missing from live cache: ")]:
+			case strings.HasPrefix(d, "query "):
+			default:
+				only = false
+			}
+		}
+		if only {
+			tags = append(tags, "incoherent:failed-new-bug-only")
+		}
 	}
 	// Go-side classification, for histograms and finding signatures only (the verdict is computed in Coq)
 	lost, bad := false, false
